@@ -705,11 +705,18 @@ class HttpProxyPlugin(HttpProtocolHandlerPlugin):
         }
         subject = ''
         for key in keys:
-            if upstream_subject.get(keys[key], None):
+            value = upstream_subject.get(keys[key], None)
+            if value:
+                # In openssl's -subj syntax a slash separates
+                # the fields and a backslash escapes.
                 subject += '/{0}={1}'.format(
                     key,
-                    upstream_subject.get(keys[key]),
+                    value.replace('\\', '\\\\').replace('/', '\\/'),
                 )
+        if subject == '':
+            # Upstream certificate carries no subject at all,
+            # it is identified by its subject alternative names only.
+            subject = '/CN={0}'.format(text_(self.request.host))
         alt_subj_names = [text_(self.request.host)]
         validity_in_days = 365 * 2
         timeout = 10
